@@ -129,7 +129,11 @@ class File(Resource):
     def read(self):
         data = self.read_bytes()
         try:
-            content, self.newlines = fscommands.file_data_to_unicode(data)
+            content, newlines = fscommands.file_data_to_unicode(data)
+            # A text without any line break tells nothing about the file's
+            # newline convention; keep what an earlier read has found.
+            if self.newlines is None or "\n" in content:
+                self.newlines = newlines
             return content
         except UnicodeDecodeError as e:
             raise exceptions.ModuleDecodeError(self.path, e.reason)
